@@ -2,6 +2,14 @@
 EXTENDS Retry, Json
 NoNext == FALSE /\ UNCHANGED vars
 EmptyC == {}
+\* refinement mapping onto the counting core RetryCount.tla (whose inductive invariant Apalache discharges for every n):
+\* n <- N, slept <- Len(sleeps), phase <- Ph.  (RetryCount!IndInv /\ Goal restated, because a CONSTANT cannot be
+\* instantiated by the state-level expression N.)
+Ph == IF phase \in {"begin", "send"} THEN "send" ELSE IF phase = "done" THEN "done" ELSE "decide"
+CountingCore == /\ 0 <= used /\ used <= N /\ Len(sleeps) = used
+                /\ (Ph = "send" => sent = used)
+                /\ (Ph \in {"decide", "done"} => sent = used + 1)
+                /\ sent <= N + 1
 EmitScn == phase = "done" => PrintT(<<"SCN", ToJson([cfg |-> cfg, script |-> script])>>)
 
 BO(f, a, b, m, j) == [fam |-> f, a |-> a, b |-> b, max |-> m, jit |-> j]
